@@ -24,6 +24,7 @@ and when the body has no break / return and no other side effect.  Anything else
 from __future__ import annotations
 
 import ast
+from fractions import Fraction
 from typing import Any, Dict, List, Optional, Tuple
 
 from . import anf
@@ -108,6 +109,25 @@ def mk_gen(depth: int, lo: Rat, hi: Rat, step: Rat, parts) -> "Gen":
         parts = [(g_subst(g, m), subst_value(x, m), sp) for g, x, sp in parts]
         lo, hi = Rat.const(0), hi.sub(lo)
     return Gen(depth, lo, hi, step, parts, ranged=True)
+
+
+def unit_step(g: "Gen") -> "Gen":
+    """A stepped block `for v in range(lo, hi, s)` as the unit-step block `for j in range(count)` with v = lo + s*j
+    (s >= 1, which range() itself requires for a non-empty ascending block): count = ceil((hi - lo) / s), exact
+    when hi - lo - 1 is a multiple of s."""
+    if not g.ranged or g.step is None or g.step.is_const() == 1:
+        return g
+    span = g.hi.sub(g.lo)
+    cnt = None
+    q = span.sub(Rat.const(1)).div(g.step)
+    if q.den == {(): 1} and all(Fraction(c_).denominator == 1 for c_ in q.num.values()):
+        cnt = q.add(Rat.const(1))
+    if cnt is None:
+        cnt = anf.opaque("ceil", span.div(g.step), array=False)
+    v = var_symbol(g.depth)
+    m = {str(v): g.lo.add(g.step.mul(v))}
+    parts = [(g_subst(gd, m), subst_value(x, m), sp) for gd, x, sp in g.parts]
+    return Gen(g.depth, Rat.const(0), cnt, Rat.const(1), parts, ranged=True)
 
 
 def var_symbol(depth: int) -> Rat:
